@@ -305,7 +305,7 @@ def run_case(case, info):
             C.oblige(f"p{C.paths}.{label}==src.getX", p.pc, viol, on_model=on_model, inputs=inputs, nice=False, quat_groups=qg,
                      sample=f"{name}: {label} returns the same {f} terms as src.get{f}(obs) for all reals on this path")
 
-    paths = explore(run, max_paths=120 if C.tier == "quick" else 1000, on_path=on_path)
+    paths = explore(run, max_paths=120 if C.tier == "quick" else 1000, on_path=on_path, seeds=C.seed_envs(inputs + (list(rot.q.ravel()) if name not in RATIONAL_ROT else []), qg if name not in RATIONAL_ROT else (), n=2))
     C.decisions += sum(len(p.decisions) for p in paths)
     if explore.truncated:
         C.note_inconclusive("path-budget", "path budget hit")
